@@ -13,7 +13,7 @@ import (
 
 const prelude = `(set-option :produce-models true)
 (set-logic ALL)
-(declare-datatypes ((Str 0)) (((mk-str (s-arr (Array Int Int)) (s-off Int) (s-len Int)))))
+(declare-datatypes ((Str 0)) (((mk-str (s-arr (Array Int Int)) (s-lo Int) (s-hi Int)))))
 (declare-datatypes ((Slice 0)) (((mk-sl (sl-ref Int) (sl-off Int) (sl-len Int) (sl-cap Int)))))
 (define-fun nilslice () Slice (mk-sl 0 0 0 0))
 (define-fun zarr () (Array Int Int) ((as const (Array Int Int)) 0))
@@ -44,7 +44,7 @@ var arrAxioms = []arrAxiom{
 	{"(p Int) (h Int)", "(=> (<= p h) (and (<= p (eolA ARR p h)) (<= (eolA ARR p h) h)))", ":pattern ((eolA ARR p h))"},
 	{"(p Int) (h Int)", "(=> (< (eolA ARR p h) h) (= (select ARR (eolA ARR p h)) 10))", ":pattern ((eolA ARR p h))"},
 	{"(p Int) (h Int) (q Int)", "(=> (and (<= p q) (< q (eolA ARR p h))) (not (= (select ARR q) 10)))", ":pattern ((eolA ARR p h) (select ARR q))"},
-	{"(l Int) (h Int)", "(and (>= (s-len (trimA ARR l h)) 0) (<= (s-len (trimA ARR l h)) (imax 0 (- h l))) (>= (s-off (trimA ARR l h)) 0))", ":pattern ((trimA ARR l h))"},
+	{"(l Int) (h Int)", "(and (<= 0 (s-lo (trimA ARR l h))) (<= (s-lo (trimA ARR l h)) (s-hi (trimA ARR l h))) (<= (- (s-hi (trimA ARR l h)) (s-lo (trimA ARR l h))) (imax 0 (- h l))))", ":pattern ((trimA ARR l h))"},
 }
 
 const eolADecl = "(declare-fun eolA ((Array Int Int) Int Int) Int)"
@@ -54,7 +54,7 @@ const trimADecl = "(declare-fun trimA ((Array Int Int) Int Int) Str)"
 const trimARec = `(define-fun isspB ((c Int)) Bool (or (= c 32) (and (<= 9 c) (<= c 13))))
 (define-fun-rec tsA ((a (Array Int Int)) (l Int) (h Int)) Int (ite (>= l h) h (ite (isspB (select a l)) (tsA a (+ l 1) h) l)))
 (define-fun-rec teA ((a (Array Int Int)) (l Int) (h Int)) Int (ite (>= l h) l (ite (isspB (select a (- h 1))) (teA a l (- h 1)) h)))
-(define-fun trimA ((a (Array Int Int)) (l Int) (h Int)) Str (mk-str a (tsA a l h) (- (teA a (tsA a l h) h) (tsA a l h))))`
+(define-fun trimA ((a (Array Int Int)) (l Int) (h Int)) Str (mk-str a (tsA a l h) (teA a (tsA a l h) h)))`
 
 func preludeText(cex bool) string {
 	if cex {
@@ -155,7 +155,11 @@ type Mod struct {
 }
 
 func newMod(ss *SpecSet) *Mod {
-	return &Mod{structs: map[string]*types.Struct{}, opaque: map[string]bool{}, comps: map[string]string{}, lits: map[string]string{}, specs: ss, ifaceTags: map[string]int{}, extraSeen: map[string]bool{}}
+	m := &Mod{structs: map[string]*types.Struct{}, opaque: map[string]bool{}, comps: map[string]string{}, lits: map[string]string{}, specs: ss, ifaceTags: map[string]int{}, extraSeen: map[string]bool{}}
+	for _, gv := range ss.Ghost {
+		m.comps[gv.Name] = gv.Type
+	}
+	return m
 }
 
 func san(s string) string {
@@ -268,6 +272,15 @@ func (m *Mod) zeroOf(t types.Type) string {
 	return m.zeroOfSort(s, t)
 }
 
+// litZero expands the prelude's zero constants into value literals (cvc5 wants a
+// value as the argument of a constant array).
+func litZero(z string) string {
+	z = strings.ReplaceAll(z, "emptystr", "(mk-str ((as const (Array Int Int)) 0) 0 0)")
+	z = strings.ReplaceAll(z, "nilslice", "(mk-sl 0 0 0 0)")
+	z = strings.ReplaceAll(z, "zarr", "((as const (Array Int Int)) 0)")
+	return z
+}
+
 func (m *Mod) zeroOfSort(s string, t types.Type) string {
 	switch s {
 	case "Bool":
@@ -289,7 +302,7 @@ func (m *Mod) zeroOfSort(s string, t types.Type) string {
 			}
 		}
 		es := strings.TrimSuffix(strings.TrimPrefix(s, "(Array Int "), ")")
-		return "((as const " + s + ") " + m.zeroOfSort(es, et) + ")"
+		return "((as const " + s + ") " + litZero(m.zeroOfSort(es, et)) + ")"
 	}
 	if m.opaque[s] {
 		return "zero_" + s
@@ -395,7 +408,7 @@ func (m *Mod) litDecls() string {
 			fmt.Fprintf(&b, "(assert (= (select %s %d) %d))\n", n, j, s[j])
 		}
 		// literal identity: distinct literals have distinct ids
-		fmt.Fprintf(&b, "(assert (= (sid %s 0 %d) %d))\n", n, len(s), -1000-i)
+		fmt.Fprintf(&b, "(assert (= (sid %s 0 %d) (- %d)))\n", n, len(s), 1000+i)
 	}
 	return b.String()
 }
@@ -599,12 +612,27 @@ func slOff(v string) string { return comp("sl-off", "mk-sl", 1, v) }
 func slLen(v string) string { return comp("sl-len", "mk-sl", 2, v) }
 func slCap(v string) string { return comp("sl-cap", "mk-sl", 3, v) }
 func sArr(v string) string  { return comp("s-arr", "mk-str", 0, v) }
-func sOff(v string) string  { return comp("s-off", "mk-str", 1, v) }
-func sLen(v string) string  { return comp("s-len", "mk-str", 2, v) }
+func sOff(v string) string  { return comp("s-lo", "mk-str", 1, v) }
+func sHi(v string) string   { return comp("s-hi", "mk-str", 2, v) }
+func sLen(v string) string {
+	lo, hi := sOff(v), sHi(v)
+	if lo == "0" {
+		return hi
+	}
+	if strings.HasPrefix(hi, "(+ "+lo+" ") {
+		rest := splitSexp(hi[1 : len(hi)-1])
+		if len(rest) == 3 && rest[1] == lo {
+			return rest[2]
+		}
+	}
+	return "(- " + hi + " " + lo + ")"
+}
 func mkSl(r, o, l, c string) string {
 	return "(mk-sl " + r + " " + o + " " + l + " " + c + ")"
 }
-func mkStr(a, o, l string) string { return "(mk-str " + a + " " + o + " " + l + ")" }
+// mkStr builds a string value from array, offset and length; strings are (arr, lo, hi).
+func mkStr(a, o, l string) string { return "(mk-str " + a + " " + o + " " + add(o, l) + ")" }
+func mkStrLH(a, lo, hi string) string { return "(mk-str " + a + " " + lo + " " + hi + ")" }
 func sel(a, i string) string      { return "(select " + a + " " + i + ")" }
 func store(a, i, v string) string { return "(store " + a + " " + i + " " + v + ")" }
 func eq(a, b string) string {
